@@ -457,6 +457,8 @@ def plan(prop, tier, seed, budget):
         def g5a(cat, cap, parts):
             def mk(ctx, Job):
                 exe = ctx['exes'][('c06', 'asan')]
+                if not exe:
+                    return []
                 return [Job('g5a-%s-%d' % (cat, k), [exe, '--prop', 'C06', 'g5a', cat, str(cap), ctx['outdir'], '%s%d' % (cat, k), str(k), str(parts)],
                             ctx['outdir'], cur=os.path.join(ctx['outdir'], 'cur-g5a-%s%d.case' % (cat, k)), harness='c06', exe=exe, prop='C06',
                             env=dict(ASAN_OPTIONS=ctx['asan_fibres'])) for k in range(parts)]
@@ -471,6 +473,8 @@ def plan(prop, tier, seed, budget):
         def g2c06(n):
             inner = g2_jobs('c06', n)
             def mk(ctx, Job):
+                if not ctx['exes'][('c06', 'asan')]:
+                    return []
                 js = inner(ctx, Job)
                 for j in js:
                     j.env = dict(ASAN_OPTIONS=ctx['asan_fibres'])
@@ -479,6 +483,7 @@ def plan(prop, tier, seed, budget):
         P = dict(
             level='exploration',
             builds=[('c06', 'asan'), ('c06t', 'tsan')],
+            optional_builds=[('c06', 'asan')],
             jobs=([g5a('two-small', 2000000, 4), g5a('three', 3000, 12), g2c06(100000), g6(20000, 4)] if q else
                   [g5a('two', 2000000, 16), g5a('three', 200000, 16), g5a('four', 60000, 16), g2c06(1500000), g6(400000, 8)]),
             rule='case = (scenario, schedule): one allocation, 2-4 threads each owning private shared/weak pointer objects (0-2 initial owners, '
@@ -516,7 +521,7 @@ def plan(prop, tier, seed, budget):
                  '2^25 x 11 sizes, every k below 2^31 with m = 1 and every k below 2^29 with m = 2^24; EVERY value the scale factor (float)m takes from 2^24 to 2^64 on the float grid, each with the smallest m that '
                  'rounds to it (and m+1), against the keys with the largest fractional part of phi*k and boundary keys; every m below 2^24; '
                  'boundary keys x boundary sizes (2^e-2..2^e+2, SIZE_MAX, Fibonacci numbers) and seeded random 64-bit pairs. Non-trivial: m >= 2. '
-                 '(b) hash-table histories (C03 language) whose hash function returns m, m+1 or SIZE_MAX at a generated call ordinal, so the bad '
+                 '(b) hash-table histories (C03 language) whose hash function returns m, m+1, SIZE_MAX or a value >= 2^32 whose low 32 bits would be a valid index, at a generated call ordinal, so the bad '
                  'value arrives during insert, find, erase, rehash, resize, shrink_to_fit, foreach, under current and pending geometry; oracle: '
                  'the library call during which the bad value was returned ends in SIGABRT (not a normal return, not SIGSEGV, not an ASan '
                  'report), and no call aborts when every value is in range. Non-trivial: the bad value was delivered. Distinct (b) = case bytes.',
